@@ -17,10 +17,10 @@ def main():
             shutil.copyfile(os.path.join(lib.SPEC, f), os.path.join(wd, f))
         env = dict(os.environ, JAVA_TOOL_OPTIONS="-Djava.io.tmpdir=%s" % wd)
         for f in mods:
-            if re.search(r'^EXTENDS[^\n]*\bApalache\b', open(os.path.join(wd, f)).read(), re.M):
+            if re.search(r'^EXTENDS[^\n]*\b(Apalache|TLAPS)\b', open(os.path.join(wd, f)).read(), re.M):
                 # typed modules for Apalache import its own standard module, which SANY does not know: they are parsed
                 # (and type-checked) by Apalache when C10's thorough tier runs
-                print("skipped (Apalache module):", f)
+                print("skipped (Apalache / TLAPS module, parsed by its own tool):", f)
                 continue
             p = subprocess.run(["timeout", "120", "tla-sany", f], cwd=wd, env=env, stdout=subprocess.PIPE,
                                stderr=subprocess.STDOUT, text=True)
